@@ -84,7 +84,7 @@ class Side(object):
         """have the side's thread run fn(); result in results[tag] once it completes"""
         self.cmds.append(("do", tag, fn))
         if settle:
-            self.pair.sched.settle()
+            self.pair.sched.settle(max_steps=self.pair.max_steps)
 
     def call(self, fn):
         """run fn on the side's thread to completion and return its value / raise its exception"""
@@ -106,6 +106,7 @@ class Pair(object):
         self.undo_time = sim.patch_time(s) if patch_time else (lambda: None)
         self.autoserve = autoserve
         self.serve_all_sides = tuple(serve_all_sides)
+        self.max_steps = 200000        # of one settle(): a run that needs more is not coming to rest
         self.serve_eof = serve_eof     # idle sides also serve when only an end-of-stream / closed stream is visible
         self._undo = []
         if transport == "sim":
@@ -142,7 +143,7 @@ class Pair(object):
         return self.b if side is self.a else self.a
 
     def settle(self):
-        self.sched.settle()
+        self.sched.settle(max_steps=self.max_steps)
 
     def deliver_to(self, side):
         """manual mode: release the next frame travelling to `side` and let it be processed"""
